@@ -351,16 +351,7 @@ func checkC05(c *Ctx, p *Prog, r *Result) {
 				if !ok || fieldName(fa.X.Type(), fa.Field) != "fdo/cose.Mac0.Value" {
 					continue
 				}
-				okv, detail := false, "stored value is not the result of a Sum call"
-				if call, ok := st.Val.(*ssa.Call); ok && call.Common().IsInvoke() && call.Common().Method.Name() == "Sum" && len(call.Common().Args) == 1 {
-					if c, isC := call.Common().Args[0].(*ssa.Const); isC && c.IsNil() {
-						okv, detail = true, "Sum(nil): fresh buffer"
-					} else if _, isMk := call.Common().Args[0].(*ssa.MakeSlice); isMk {
-						okv, detail = true, "Sum(make(...)): fresh buffer"
-					} else {
-						detail = "Sum appends to an existing buffer (" + call.Common().Args[0].String() + "): may alias the received tag"
-					}
-				}
+				okv, detail := freshSum(p, st.Val, 0)
 				r.table(p, "C05.recomputed-tag-fresh", "store to Mac0.Value in "+p.FuncName(dg), p.instrPos(in), okv, detail)
 			}
 		}
@@ -498,4 +489,48 @@ func c05FreshIV(p *Prog, r *Result) {
 	if n < 3 {
 		r.fail("C05.fresh-iv: only %d Crypter.Encrypt implementations found, expected 3", n)
 	}
+}
+
+// freshSum: v is hash.Sum(nil) / Sum(make(...)), or result 0 of a module
+// function every return of which is such a value.
+func freshSum(p *Prog, v ssa.Value, depth int) (bool, string) {
+	if ex, ok := v.(*ssa.Extract); ok && ex.Index == 0 {
+		v = ex.Tuple
+	}
+	call, ok := v.(*ssa.Call)
+	if !ok || depth > 3 {
+		return false, "stored value is not the result of a Sum call"
+	}
+	if call.Common().IsInvoke() && call.Common().Method.Name() == "Sum" && len(call.Common().Args) == 1 {
+		if c, isC := call.Common().Args[0].(*ssa.Const); isC && c.IsNil() {
+			return true, "Sum(nil): fresh buffer"
+		}
+		if _, isMk := call.Common().Args[0].(*ssa.MakeSlice); isMk {
+			return true, "Sum(make(...)): fresh buffer"
+		}
+		return false, "Sum appends to an existing buffer (" + call.Common().Args[0].String() + "): may alias the received tag"
+	}
+	body := p.body(call.Common().StaticCallee())
+	if body == nil {
+		return false, "stored value is not the result of a Sum call"
+	}
+	n := 0
+	for _, b := range body.Blocks {
+		ret, ok := b.Instrs[len(b.Instrs)-1].(*ssa.Return)
+		if !ok || b == body.Recover || len(ret.Results) == 0 {
+			continue
+		}
+		rv := returnValue(ret, 0)
+		if c, isC := rv.(*ssa.Const); isC && c.IsNil() {
+			continue // error path returning no tag
+		}
+		if ok2, d := freshSum(p, rv, depth+1); !ok2 {
+			return false, d + " (in " + p.FuncName(body) + ")"
+		}
+		n++
+	}
+	if n == 0 {
+		return false, "helper " + p.FuncName(body) + " never returns a tag"
+	}
+	return true, "result of " + p.FuncName(body) + ", which returns Sum(nil)"
 }
